@@ -246,6 +246,7 @@ def remove_last_whitespace(context, line):
         assert resume is None
         space_width = box.width - new_box.width
         box.width = new_box.width
+        box.pango_layout = new_box.pango_layout
     else:
         space_width = box.width
         box.width = 0
